@@ -194,3 +194,110 @@ def _c19(bindir, tier, seed):
 @plan("C07")
 def _c07(bindir, tier, seed):
     return frame_jobs(bindir, "C07", tier, seed, True)
+
+
+# ---- C08 C09 C10 C11 C15 C16: the queuing sink -------------------------------------------------------------
+Q_ASSUME = ["'eventually' is restated as bounded progress: success is signalled by the wrapped sink's own events; failure is decided by logical evidence "
+            "(no library thread left, or every library thread in state S with unchanged context-switch counters over >= 150 samples / 1.5 s while the "
+            "harness holds nothing that could wake it); a 120 s watchdog yields INCONCLUSIVE, never a violation",
+            "sequential histories are exact because the wrapped sink is gated and the worker's rest points are known (schedule point queuing.run.wait of hook H2); "
+            "concurrent schedules are sampled from the OS scheduler, forced windows come from hook H2",
+            "crossbeam-channel is trusted to be a correct MPSC FIFO"]
+
+Q_SEQ = ("sequential histories on the real QueuingMetricSink with a gated, scripted wrapped sink: small-scope enumeration of EVERY valid sequence of length <= L over "
+         "{emit(handle, ok|err|panic), clone, drop(handle), release one gated call} (<= 2 handles, capacities unbounded/1/2/3), random sequences of length <= 40 with up to 6 "
+         "handles and capacities 0..8, ")
+Q_CONC = ("concurrent histories (2-8 producers on own clones or one shared handle, handle churn on another thread, bounded and unbounded queues, wrapped sink with micro-sleeps, "
+          "errors and panics, a sampler thread), and forced windows through schedule points (hook H2). distinct = history shape (capacity, handler, op codes with accept/refuse) "
+          "for sequential runs, (capacity, #producers, producer-id trigram in delivery order) for concurrent runs, (window, capacity, counter triple) for forced windows")
+
+
+def q_jobs(bindir, prop, tier, seed, seq_enum=True, caps="unbounded,1,2,3", drop_matrix=False, outcomes=None, focus="mixed", windows=True, seq_random=True, conc=True):
+    quick = tier == QUICK
+    jobs = []
+    base = ["--property", prop]
+    if seq_enum:
+        jobs += shards(bindir, "queue_driver", prop + "-seqenum", seed, NCPU, base + ["--mode", "seq-enum", "--maxlen", "4" if quick else "6", "--caps", caps, "--max-handles", "2"], 3400)
+    if drop_matrix:
+        jobs += shards(bindir, "queue_driver", prop + "-dropmatrix", seed, 8, base + ["--mode", "drop-matrix", "--maxpat", "3" if quick else "5"], 3400)
+    if outcomes:
+        alpha, nq, nt = outcomes
+        jobs += shards(bindir, "queue_driver", prop + "-outcomes", seed, NCPU, base + ["--mode", "outcomes", "--alphabet", alpha, "--n", str(nq if quick else nt)], 3400)
+    if seq_random:
+        jobs += shards(bindir, "queue_driver", prop + "-seqrandom", seed, NCPU, base + ["--mode", "seq-random", "--focus", focus, "--cases", "150" if quick else "12000"], 3400)
+    if conc:
+        jobs += shards(bindir, "queue_conc", prop + "-conc", seed, NCPU, base + ["--mode", "conc", "--focus", focus, "--cases", "10" if quick else "1200"], 3400)
+    if windows:
+        jobs += shards(bindir, "queue_conc", prop + "-windows", seed, 2 if quick else 8, base + ["--mode", "windows", "--cases", "2" if quick else "200"], 3400)
+    return jobs
+
+
+meta("C08", level="exploration",
+     rule="rules R1 (multiset of wrapped-sink calls == accepted emits, nothing refused/unknown/duplicated delivered), R2 (delivery order == acceptance order; per producer and by "
+          "real-time precedence RET(a) < CALL(b) => ENTER(a) < ENTER(b) under concurrency), R3 (calls into the wrapped sink strictly alternate ENTER/EXIT across thread restarts); "
+          + Q_SEQ + Q_CONC,
+     assumptions=Q_ASSUME, exhaustive_scope="the sequential op-sequence enumeration up to the stated length (random, concurrent and window parts are sampled)",
+     min_evaluations=2000, must_observe={"sink_calls_observed": 2000, "enumerated_histories": 500, "deliveries_observed": 1000, "real_time_precedence_pairs_checked": 1000, "handle_clone_drop_pairs_during_run": 100})
+meta("C09", level="exploration",
+     rule="rule R4: after the last handle is dropped every accepted metric is still handed over, then SINK_DROP is observed (the wrapped sink is released), then no library thread is left; "
+          "drop returns while the gate is closed and never unwinds. Drop matrix: capacities unbounded/0/1/2/3/8 x EVERY occupancy 0..=capacity at the last drop (incl. completely full) x "
+          "worker busy/idle x every ok/err/panic pattern of the remaining metrics x clone dropped first; forced windows C1-C5 park the worker just before it waits and the dropper between "
+          "'flag set' and 'wake-up'; " + Q_SEQ + Q_CONC,
+     assumptions=Q_ASSUME, exhaustive_scope="the drop matrix and the sequential op-sequence enumeration up to the stated bounds",
+     min_evaluations=2000, must_observe={"sink_drops_observed": 2000, "last_drop_with_full_queue": 20, "last_drop_while_sink_blocked": 100, "forced_stop_windows": 20})
+meta("C10", level="exploration",
+     rule="rule R5: sequential and exact with the worker parked inside the gated sink: emit returns Ok iff accepted - handed_over < capacity (distinguishes capacity c from c+-1), always Ok when "
+          "unbounded, Ok(n) => n == len, emit returns while the gate is closed (a call that blocks for good is detected by the calling thread's /proc state), ENTER never on a caller thread, no "
+          "wrapped-sink error text or panic in any emit result; under concurrency the tolerant bounds of DESIGN.md appendix C (definite over-acceptance / definite false refusal); a forced window "
+          "parks the worker after taking one entry and probes that exactly `capacity` further metrics are accepted; " + Q_SEQ + Q_CONC,
+     assumptions=Q_ASSUME, exhaustive_scope="the sequential op-sequence enumeration up to the stated length",
+     min_evaluations=2000, must_observe={"emits_refused": 500, "emits_accepted": 2000, "capacity_bound_checks": 500, "capacity_probes_with_worker_parked": 2})
+meta("C11", level="fault_enumeration",
+     rule="rule R6: EVERY assignment of {ok, err, panic} to n <= N queued metrics (N=6 quick, 9 thorough) in three arrangements (all queued before any outcome happens; one at a time; queued, "
+          "released one by one, then a further metric accepted after the panics), random panic-heavy sequential histories, concurrent producers with panicking wrapped sink; R1-R3 must hold for "
+          "all metrics (each panicking metric is handed over exactly once, never again), the sink keeps accepting, panics() at rest == number of EXIT(panic) (read after every panicked thread is gone); "
+          + Q_CONC,
+     assumptions=Q_ASSUME, exhaustive_scope="all ok/err/panic assignments up to the stated length in the three arrangements",
+     min_evaluations=1000, must_observe={"scripted_panics": 500, "panic_counts_checked": 200})
+meta("C15", level="exploration",
+     rule="rule R7: at every rest point of every sequential history submitted == #Ok emits, drained == #ENTER, queued == difference (refused emits counted nowhere); under concurrency a sampler "
+          "thread reads queued() and THEN submitted() (monotone, so a sound upper bound) ~10^6 times per second; forced windows A (producer parked between try_send and its bookkeeping while the "
+          "worker hands the entry over: drained=1, submitted=0, queued must be 0, not 2^64-1 and not an overflow panic) and B (worker parked between receive and its bookkeeping); " + Q_SEQ + Q_CONC,
+     assumptions=Q_ASSUME, exhaustive_scope="the sequential op-sequence enumeration up to the stated length",
+     min_evaluations=2000, must_observe={"counter_rest_points_checked": 5000, "sampler_reads": 100000, "forced_window_A_samples": 2, "forced_window_B_samples": 2})
+meta("C16", level="fault_enumeration",
+     rule="rule R8: EVERY {ok, err(kind a), err(kind b)} pattern over n <= N queued metrics (N=7 quick, 10 thorough), with and without with_error_handler, random error-heavy sequential and "
+          "concurrent histories mixed with panics; each EXIT(err e) is followed - before the next ENTER - by exactly one HANDLER(e) (identity by io::ErrorKind + unique message) on the same "
+          "(library) thread, no HANDLER without such an EXIT, and without a handler deliveries simply continue; " + Q_CONC,
+     assumptions=Q_ASSUME, exhaustive_scope="all ok/err patterns up to the stated length, with and without handler",
+     min_evaluations=1000, must_observe={"scripted_errors": 1000, "handler_calls": 500})
+
+
+@plan("C08")
+def _c08(bindir, tier, seed):
+    return q_jobs(bindir, "C08", tier, seed)
+
+
+@plan("C09")
+def _c09(bindir, tier, seed):
+    return q_jobs(bindir, "C09", tier, seed, caps="unbounded,0,1,2", drop_matrix=True, focus="drop")
+
+
+@plan("C10")
+def _c10(bindir, tier, seed):
+    return q_jobs(bindir, "C10", tier, seed)
+
+
+@plan("C11")
+def _c11(bindir, tier, seed):
+    return q_jobs(bindir, "C11", tier, seed, seq_enum=False, outcomes=("oep", 6, 9), focus="panic", windows=False)
+
+
+@plan("C15")
+def _c15(bindir, tier, seed):
+    return q_jobs(bindir, "C15", tier, seed)
+
+
+@plan("C16")
+def _c16(bindir, tier, seed):
+    return q_jobs(bindir, "C16", tier, seed, seq_enum=False, outcomes=("oe", 7, 10), focus="error", windows=False)
